@@ -285,11 +285,13 @@ fn render(model: &TxModel, shape: Shape, to_form: &str, field: &str, fragment: &
     if fragment == "<absent>" {
         if let J::Obj(mut kv) = j {
             kv.retain(|(k, _)| k != field);
-            return J::Obj(kv).render();
+            let style = u.u64();
+            return J::Obj(kv).render_styled(style);
         }
         unreachable!()
     }
-    j.render()
+    let style = u.u64();
+    j.render_styled(style)
 }
 
 fn gen_case(tape: Vec<u8>) -> Case {
